@@ -15,6 +15,7 @@ const (
 	keyIdlessSubscribe  = "notify-without-response:idless-subscribe"
 	keyTimedOutSub      = "notify-without-response:subscribe-timed-out(white-box)"
 	keyNotifTimeout     = "response-to-notification:timeout-nonbatch"
+	keyBatchPartial     = "missing-response:batch-partial-reply-after-cancel"
 	oracleNotifyNoResp  = "notify-without-response"
 	oracleNotifyEarly   = "notify-before-response"
 	oracleDupResponse   = "duplicate-response"
@@ -279,6 +280,44 @@ func checkContent(p *Plan, u *Unit, e *Entry, r *robj, timeoutPossible bool) str
 	return ""
 }
 
+// partialOf returns the index of the unanswered batch (with a request timeout) of which ids is
+// a strict, non-empty sub-multiset, or -1.
+func partialOf(ids []string, batches []*batchExp, idsOf func(int) []string, timeoutPossible func(int) bool) int {
+	if len(ids) == 0 {
+		return -1
+	}
+	for bi, b := range batches {
+		if b.matched > 0 || !timeoutPossible(b.ui) {
+			continue
+		}
+		exp := idsOf(b.ui)
+		if len(ids) >= len(exp) {
+			continue
+		}
+		left := map[string]int{}
+		for _, id := range exp {
+			left[id]++
+		}
+		ok := true
+		for _, id := range ids {
+			left[id]--
+			if left[id] < 0 {
+				ok = false
+			}
+		}
+		if ok {
+			return bi
+		}
+	}
+	return -1
+}
+
+type batchExp struct {
+	ui      int
+	sig     string
+	matched int
+}
+
 type notifParams struct {
 	Subscription string     `json:"subscription"`
 	Result       *evPayload `json:"result"`
@@ -387,11 +426,6 @@ func judge(p *Plan, o *obs, deadlock string, res *simcore.Result) *simcore.Resul
 		expSingles := map[string]int{}
 		entryOfSingle := map[string][]*Entry{}
 		unitOfSingle := map[string]int{}
-		type batchExp struct {
-			ui      int
-			sig     string
-			matched int
-		}
 		var batches []*batchExp
 		for _, ui := range s.units {
 			u := &p.Units[ui]
@@ -473,6 +507,55 @@ func judge(p *Plan, o *obs, deadlock string, res *simcore.Result) *simcore.Resul
 							return res
 						}
 					}
+					// a strict part of a batch that ran under a request timeout: the reply was
+					// written by the processing goroutine after it saw the cancelled context,
+					// without error entries for the calls it never started
+					if pb := partialOf(ids, batches, func(ui int) []string { return xs[ui].batchIDs }, timeoutPossible); pb >= 0 {
+						var lost []string
+						left := map[string]int{}
+						for _, id := range xs[batches[pb].ui].batchIDs {
+							left[id]++
+						}
+						for _, id := range ids {
+							left[id]--
+						}
+						for _, id := range xs[batches[pb].ui].batchIDs {
+							if left[id] > 0 {
+								lost = append(lost, id)
+								left[id] = 0
+							}
+						}
+						// The known same-instant race (NOTES.md) has this exact signature: the array was
+						// written by the processing goroutine (no timeout error entry in it), a
+						// timeout-vs-return race was armed in the unit, and every lost call that runs a
+						// method was never started. Anything else gets the generic key.
+						key := keyBatchPartial
+						if !w.racy[batches[pb].ui] {
+							key = "missing-response:batch-entries-unanswered"
+						}
+						for _, r := range f.objs {
+							if r.Error != nil && r.Error.Code == -32002 {
+								key = "missing-response:batch-entries-unanswered"
+							}
+						}
+						for _, id := range lost {
+							for _, e := range xs[batches[pb].ui].entryByID[id] {
+								if e.runsMethod() && w.invoked[e.Name] > 0 && len(xs[batches[pb].ui].entryByID[id]) == 1 {
+									key = "missing-response:batch-entries-unanswered"
+								}
+							}
+						}
+						v := viol(oracleMissing, key, "batch unit %d: the single reply array carries %q, the calls with ids %q were never answered (request timeout / context deadline hit while the batch was being processed): %s",
+							batches[pb].ui, ids, lost, f.raw)
+						if key == keyBatchPartial && simcore.IsKnown(keyBatchPartial) {
+							res.KnownHit(keyBatchPartial)
+							batches[pb].matched++
+							lh = lh.String("A*")
+							continue
+						}
+						fail(v)
+						return res
+					}
 					// overlapping ids with some batch -> partial or repeated reply
 					for _, b := range batches {
 						exp := map[string]bool{}
@@ -515,9 +598,7 @@ func judge(p *Plan, o *obs, deadlock string, res *simcore.Result) *simcore.Resul
 							return res
 						}
 					}
-					if w.racy[hit.ui] {
-						lh = lh.String("*")
-					} else {
+					if !w.racy[hit.ui] {
 						lh = lh.String(classOf(r))
 					}
 					st = st.String(classOf(r))
@@ -724,9 +805,11 @@ func judge(p *Plan, o *obs, deadlock string, res *simcore.Result) *simcore.Resul
 				}
 				res.Probe("answered-by-deadline")
 			}
-			lh = lh.U64(uint64(len(h.rec.writes)))
-			for _, wr := range h.rec.writes {
-				lh = lh.U64(uint64(wr.at))
+			if !w.racy[ui] {
+				lh = lh.U64(uint64(len(h.rec.writes)))
+				for _, wr := range h.rec.writes {
+					lh = lh.U64(uint64(wr.at))
+				}
 			}
 		}
 	}
